@@ -97,6 +97,27 @@ CHECKS = {
     text="Each load, memcpy source, libc reader and helper call carries the obligation that the read range lies inside the declared extent (dmax of dest, slen/n/len of a length-declared source, local arrays, constant tables), including lower bounds for backward scans. 299 of 441 obligations are discharged; 22 known findings; 120 obligations in listed reach-limited functions are not claimed. Sources without a declared length produce no obligations (that they are read only up to their terminator is not decided).",
     design_ref="DESIGN.md §3.2, §4 C02",
     note=TB + "; truthfulness premise; functions in tables/cap_reach.json are not analysed and not claimed; two fix: commits in /repo repaired 31 deref-before-counter loops"),
+ "C07": dict(
+    engine="pathflags",
+    technique="(a) enumeration of all 13 weak orderings of the four byte endpoints of the two operands; per ordering the reachable returns of each interval-testing function are computed by the path engine under the ordering's linear facts and compared with 'intervals intersect'; (b) structural dominance rule for the bumper comparisons in the 26 copy loops of the string family",
+    category="other",
+    text="Clause (a) is exhaustive over relative placements for all sizes: an ordering fixes which comparisons of the overlap test are entailed; a test in the wrong unit or with a missing half leaves a branch undecided and a forbidden return reachable (success under intersection, ESOVRLP under disjointness, ESOVRLP for identical pointers where they are accepted). Clause (b): every non-zero store through the destination cursor in a copy loop is dominated, in the same iteration, by the comparison of a moving cursor with the fixed start of the other operand, whose equal edge leaves the loop. Not decided: that the memmove family produces exactly the bytes of a copy through a temporary.",
+    design_ref="DESIGN.md §3.4, §4 C07",
+    note=TB + "; object sizes unknown to the library and byte sizes that are multiples of the element size are assumed for clause (a); identical-pointer acceptance is taken from the table in sa/checks/c07.py"),
+ "C08": dict(
+    engine="capcheck",
+    technique="relational abstract interpretation: for every zeroing memset and every zero-only store loop into a caller buffer the equality 'start offset + length == declared size' is entailed in both directions from the loop invariants",
+    category="other",
+    text="Decides a necessary structural clause for all result lengths and all dmax (including both sides of the 0x20 memset/loop switch, since both forms are obligations): slack clearing ends exactly at dest + dmax. A stale counter, a unit slip (elements for bytes) or a loop that stops early breaks the equality. That a terminator is present on every success path is C03 (thorough: no-slack build); that the elements in front are exactly the result is value-level (C06) and not decided.",
+    design_ref="DESIGN.md §3.2, §4 C08",
+    note=TB + "; functions in tables/cap_reach.json (4 clearing writes: strnset_s, wcsnset_s, wcsfc_s, wcsnorm_compose_s) are not analysed"),
+ "C17": dict(
+    engine="capcheck",
+    technique="bounded-index obligations on the plane-table loads (cp >> 16 into 17-entry arrays), discharged inside the lookup helper or turned into a precondition that every call site must entail, followed through private helpers to the exported entry points",
+    category="other",
+    text="Decides the clause 'code points above U+10FFFF are rejected rather than used as table indices' for every input string: each plane-table access is bounded where it happens or at all call sites of its helper. Conformance of normalisation and folding to the Unicode standard, idempotence and the iswfc/towfc_s length agreement are value-level over 17k table entries and are not decided.",
+    design_ref="DESIGN.md §3.2, §4 C17",
+    note=TB + "; 32-bit wchar_t configuration; one fix: commit in /repo (two crashes on out-of-range code points)"),
 }
 
 NOT_APPLICABLE = {
